@@ -156,7 +156,7 @@ func (k msgServer) PurchaseBeaconStateStorage(goCtx context.Context, msg *types.
 	maxParam := k.GetParamMaxStorageLimit(ctx)
 	beaconStorageAfter := beaconStorage.InStateLimit + msg.Number
 
-	if beaconStorageAfter > maxParam {
+	if beaconStorageAfter > maxParam || beaconStorageAfter < beaconStorage.InStateLimit {
 		return nil, sdkerrors.Wrap(types.ErrExceedsMaxStorage, fmt.Sprintf("%d will exceed max storage of %d", beaconStorageAfter, maxParam))
 	}
 
